@@ -95,10 +95,10 @@ CLAIMED = {
         'design_ref': 'DESIGN.md 5/C17',
     },
     'C18': {
-        'text': 'Deductive proof (Verus), incremental: 24 parser functions are under proof with the contract "total" - parse_term, make_term, parse_arguments, check_quotes, parse_complex, parse_functor_terms, validate_complex, parse_query, '
+        'text': 'Deductive proof (Verus), incremental: 40 parser / tokenizer functions are under proof with the contract "total" - parse_term, make_term, parse_arguments, check_quotes, parse_complex, parse_functor_terms, validate_complex, parse_query, '
                 'parse_function, parse_subgoal, parse_operator_goal, make_goal, make_goal_no_args, get_left_and_right, split_complex_term, indices_of_parentheses, check_infix, check_arithmetic_infix, equal_escape, index_of_neck, parse_rule '
                 '(plus the error formatters). For every text below 2^31 characters Verus discharges: every index and slice in range, no arithmetic overflow, every unwrap on Some, every panic! unreachable, every loop with a decreases clause, '
-                'and every callee precondition (e.g. an infix position always leaves room for its operand). parse_linked_list and link_front are under proof too (total; the parsed list is well formed). make_logic_var too. NOT yet under proof and listed as trusted: the tokenizer behind generate_goal, make_query; '
+                'and every callee precondition (e.g. an infix position always leaves room for its operand). parse_linked_list and link_front are under proof too (total; the parsed list is well formed). make_logic_var too, and the tokenizer (tokenize, group_tokens, group_and_tokens, group_or_tokens, token_tree_to_goal, generate_goal with the token helpers): the grouping functions are shown to build only trees that token_tree_to_goal accepts, so its three panic! sites and the two in the grouping functions are unreachable - under ONE assumed clause about the first text of every token group (listed in the evidence). Trusted: make_query; '
                 'termination of the mutual recursion between the parsers is argued (strictly shorter texts) but not machine-checked.',
         'note': 'Trusted: R5 (char/String conversion macros as functions), R10 (&s[1..] wrapped with its char-boundary precondition), R11 (starts_with/ends_with as total external functions), assumed specs of trim, parse::<i64/f64>, to_vec, String::len, Chars::last (T3); T1, T4, T5.',
         'technique': 'contract-based deductive verification (Verus) of extracted real code',
